@@ -664,6 +664,53 @@ pub fn drive_c16(seed: u64, thorough: bool, out: &mut dyn Write) -> usize {
     e.id
 }
 
+/// Regular expressions (`matches`): every token string up to 3 (thorough: 4) tokens over a small token alphabet, and
+/// a pool of longer patterns, each against one list of texts (all words up to length 3 over {a, b}, plus texts
+/// with line feeds and non-ASCII characters).  One record per pattern: the list of answers.
+pub fn drive_rx(_seed: u64, thorough: bool, out: &mut dyn Write) -> usize {
+    let mut e = Emit { out, id: 0 };
+    let s = |x: &str| Value::String(Arc::new(x.to_string()));
+    let mut texts: Vec<String> = vec![String::new()];
+    let mut frontier = vec![String::new()];
+    for _ in 0..3 {
+        let mut next = vec![];
+        for w in &frontier {
+            for c in ["a", "b"] {
+                next.push(format!("{}{}", w, c));
+            }
+        }
+        texts.extend(next.iter().cloned());
+        frontier = next;
+    }
+    texts.extend(["a\nb", "\n", "a\n", "\nb", "é", "aéb", "ab ab", "A", "abab", "aabb", "b_a", "0a9"].iter().map(|x| x.to_string()));
+    let tv = Value::List(Arc::new(texts.iter().map(|t| s(t)).collect()));
+    let tokens = ["a", "b", ".", "*", "+", "?", "|", "(", ")", "^", "$", "[a]", "[^a]"];
+    let mut pats: Vec<String> = vec![String::new()];
+    let mut frontier = vec![String::new()];
+    for _ in 0..(if thorough { 4 } else { 3 }) {
+        let mut next = vec![];
+        for w in &frontier {
+            for t in tokens.iter() {
+                next.push(format!("{}{}", w, t));
+            }
+        }
+        pats.extend(next.iter().cloned());
+        frontier = next;
+    }
+    for p in ["^[a-z]*$", "^(a|b)+$", "(ab)*", "^(ab)*$", "a.b", "^a.b$", "[^b]$", "^[^a]", "[a-b][a-b][a-b]", "^(a|ab)(b|)$", "(a*)*", "(a|b)*abb", "^(a+)+$", "é", "a?é.b", "[0-9]a[0-9]", "^[A-Z]$",
+              "b_a", "ab ab", "(((a)))", "((((a))))", "(((((a)))))", "a|b|", "|", "()", "(|a)b", "^$", "^^a", "a$$", "$a", "b^", "(^a|b$)", "(a$|^b)", "x*", "x+", "^x?$", "[a-a]", "[b-a]", "[a-]", "[]", "[]a]", "[^]",
+              "a{2}", "a*?", "a+?", "a??", "a**", "\\d", "\\.", "(?i)a", "(?:a)", "(?P<n>a)", "a\\b", ".\n.", "[[:alpha:]]", "\\pL", "(", ")", "a)", "(a", "*a", "+", "?", "a|*", "[", "a[", "[a", "^*", "$+"] {
+        pats.push(p.to_string());
+    }
+    for p in pats {
+        let pv = s(&p);
+        let vars = vec![("ts".to_string(), tv.clone()), ("p".to_string(), pv.clone())];
+        let o = prog_apply("ts.map(t, t.matches(p))", &vars);
+        e.rec("rxtable", "var", &tv, &pv, "ts.map(t, t.matches(p))", o);
+    }
+    e.id
+}
+
 /// C13: numeric literals in every form, and the conversions int() uint() double() string() bytes().
 pub fn drive_c13(seed: u64, thorough: bool, out: &mut dyn Write) -> usize {
     let mut e = Emit { out, id: 0 };
